@@ -29,6 +29,22 @@ def test_schedule_counts():
         assert n0 == math.factorial(len(pts)), (pts, n0)   # bound 0: only thread orders
 
 
+def test_sharded_exploration_is_a_partition():
+    def mk(p):
+        def body():
+            for j in range(p):
+                sched.point('p%d' % j)
+        return body
+    bodies = [mk(3), mk(2), mk(2)]
+    for bound in (1, 2, None):
+        whole = []
+        sched.explore(bodies, bound, lambda x: whole.append(tuple(x.choices)))
+        parts = []
+        for k in range(4):
+            sched.explore(bodies, bound, lambda x: parts.append(tuple(x.choices)), shard=(k, 4))
+        assert sorted(parts) == sorted(whole) and len(set(parts)) == len(parts), (bound, len(parts), len(whole))
+
+
 def test_lost_update_found_at_bound_1():
     # classic check-then-act: found with 1 preemption, not with 0
     for bound, expect_bad in ((0, False), (1, True)):
